@@ -1,7 +1,7 @@
 #!/bin/bash
 # usage: verify_seed.sh <id> <crate> <dir-with-patch.diff-and-demo.rs>
 # In the scratch worktree /tmp/seed-<id>: (1) full suite passes with the change, (2) demo fails with it, (3) demo passes without it.
-id=$1; crate=$2; src=$3
+id=$1; crate=$2; src=$3; feat=${4:-}
 wt=/tmp/seed-$id
 export RUSTUP_TOOLCHAIN=stable-x86_64-unknown-linux-gnu CARGO_TARGET_DIR=$wt/target CARGO_NET_OFFLINE=true
 cd $wt || exit 2
@@ -10,7 +10,7 @@ rm -f rust/*/tests/zz_demo.rs
 git apply $src/patch.diff || { echo "PATCH-DOES-NOT-APPLY"; exit 1; }
 echo "== full suite with change"; cargo test --workspace --no-fail-fast --offline 2>&1 | grep -E "^test result|FAILED|failed|error" | sort | uniq -c | head -20
 cp $src/demo.rs rust/$crate/tests/zz_demo.rs
-echo "== demo with change"; cargo test -p $crate --test zz_demo --offline 2>&1 | grep -E "^test result|error" | head -5
+echo "== demo with change"; cargo test -p $crate $feat --test zz_demo --offline 2>&1 | grep -E "^test result|error" | head -5
 git checkout -q -- rust
-echo "== demo without change"; cargo test -p $crate --test zz_demo --offline 2>&1 | grep -E "^test result|error" | head -5
+echo "== demo without change"; cargo test -p $crate $feat --test zz_demo --offline 2>&1 | grep -E "^test result|error" | head -5
 rm -f rust/$crate/tests/zz_demo.rs
